@@ -545,8 +545,8 @@ def _format_index(index_statistics):
             unique=properties["unique"],
             coerce=properties["coerce"],
             name=properties["name"].__repr__(),
-            description=(None if description is None else f'"{description}"'),
-            title=(None if title is None else f'"{title}"'),
+            description=description.__repr__(),
+            title=title.__repr__(),
         )
         index.append(index_code.strip())
 
@@ -584,8 +584,8 @@ def to_script(dataframe_schema, path_or_buf=None):
             coerce=properties["coerce"],
             required=properties["required"],
             regex=properties["regex"],
-            description=(None if description is None else f'"{description}"'),
-            title=(None if title is None else f'"{title}"'),
+            description=description.__repr__(),
+            title=title.__repr__(),
         )
         columns[colname] = column_code.strip()
 
